@@ -114,6 +114,17 @@ def chk (b : Bool) (msg : String) : List String := if b then [] else [msg]
 def param (st : State) (op : String) (args : List String) (got : String) : String × State :=
   let kv := kvOf got
   let fail := fun (st' : State) => ("FAIL S model=[] spec=[a generated key] got=[" ++ got ++ "]", st')
+  -- a key generation that reports an error has not generated a key: nothing to check, no key in the context
+  if got == "err" then
+    ("ok " ++ op ++ "-refused", match op with
+      | "rsa_param" | "rsa_key_param" => { st with rsa := none }
+      | "rabin_param" => { st with rabin := none }
+      | "bdpe_param" => { st with bdpe := none }
+      | "phpe_param" => { st with phpe := none }
+      | "ghpe_param" => { st with ghpe := none }
+      | "shpe_param" => { st with shpe := none }
+      | _ => st)
+  else
   match op with
   | "rsa_param" | "rsa_key_param" =>
     match hexN kv "n", hexN kv "e", hexN kv "d", hexN kv "p", hexN kv "q", hexN kv "dp", hexN kv "dq", hexN kv "qi" with
